@@ -236,6 +236,7 @@ where
         for i in picked {
             CURRENT_CASE.with(|c| c.set((phase, i)));
             let _ = f(i);
+            crate::universal::flush_case(phase, i);
             CURRENT_CASE.with(|c| c.set((u64::MAX, 0)));
             done += 1;
         }
@@ -272,6 +273,7 @@ where
                                     }
                                     CURRENT_CASE.with(|c| c.set((phase, i)));
                                     let r = f(i);
+                                    crate::universal::flush_case(phase, i);
                                     CURRENT_CASE.with(|c| c.set((u64::MAX, 0)));
                                     done.fetch_add(1, Ordering::Relaxed);
                                     life += 1;
